@@ -20,7 +20,7 @@ HARD_TIMEOUT = 400
 SOFT_TIMEOUT = 300
 N = {'quick': 260, 'thorough': 4000}
 QUICK_ENGINES = ['g3', 'cd', 'm22', 'mc', 'mcb', 'mg3']
-REQUIRED = {'quick': {'backends_compared': 1000}, 'thorough': {'backends_compared': 20000}}
+REQUIRED = {'quick': {'backends_compared': 500}, 'thorough': {'backends_compared': 20000}}
 
 
 def cases(tier, seed):
